@@ -122,15 +122,15 @@ def run_both(ck, cases, gvh=None, oracle=None, want_sources=False, timeout=None)
     oracle = oracle or ck.build_oracle("luacore")
     go, orc, srcs = make_lines(cases)
     out_go, out_or, err = [], [], ""
-    CH = 400
+    CH = 60
     bad = 0
     for i in range(0, len(go), CH):
-        if bad > 25:
+        if bad > 12:
             # the implementation hangs/crashes on case after case: do not wait for thousands of time-outs
             out_go += ["%s SKIPPED" % l.split(" ", 1)[0] for l in go[i:i + CH]]
             out_or += ["%s SKIPPED" % l.split(" ", 1)[0] for l in orc[i:i + CH]]
             continue
-        g = vlib.run_lines_resilient(gvh, ["lua"], go[i:i + CH], per_case_timeout=timeout or 10)
+        g = vlib.run_lines_resilient(gvh, ["lua"], go[i:i + CH], per_case_timeout=timeout or 8)
         bad += sum(1 for l in g if " HANG" in l or " CRASH" in l)
         out_go += g
         out_or += vlib.run_lines_resilient(oracle, [], orc[i:i + CH], per_case_timeout=timeout or 30)
